@@ -23,6 +23,8 @@ Clause → theorem
   2-D: unit circle, first point on the positive first axis        circle_unit, circle_first_point
   2-D: the n equally spaced directions are pairwise distinct      circle_points_distinct
   2-D IFORM: largest first variable = first point = Q₀(Φ(β))      iform_max_first_variable
+  n_dim ≥ 3: NSphere returns unit vectors (normalised rows of one
+  of the visited states)                                          normalize_unit, bestState_mem, bestState_unit
   distinct directions, n_dim ≥ 3 (NSphere)                        observed per run (partial)
 -/
 import VirVerif.Lemmas.Hier
@@ -31,6 +33,8 @@ import Mathlib.Algebra.BigOperators.Group.List.Basic
 import Mathlib.Analysis.SpecialFunctions.Trigonometric.Basic
 import Mathlib.Analysis.SpecialFunctions.Trigonometric.Angle
 import Mathlib.Tactic.FieldSimp
+import Mathlib.Analysis.SpecialFunctions.Pow.Real
+import Mathlib.Analysis.SpecialFunctions.Sqrt
 import Mathlib.Tactic.Ring
 import Mathlib.Tactic.Linarith
 
@@ -186,6 +190,61 @@ theorem iform_max_first_variable (Q0 Φ : ℝ → ℝ) (hmono : Monotone fun u =
   rw [Real.cos_zero]
   have := Real.cos_le_one φ
   nlinarith
+
+/-! ### NSphere (n_dim ≥ 3): the returned points are unit vectors -/
+
+/-- row normalisation of NSphere (`points /= np.linalg.norm(points, axis=1, keepdims=True)`) -/
+noncomputable def normalizeRow (v : List ℝ) : List ℝ := v.map fun x => x / Real.sqrt (normSq v)
+
+theorem normSq_nonneg (v : List ℝ) : 0 ≤ normSq v := by
+  unfold normSq
+  apply List.sum_nonneg
+  intro x hx
+  simp only [List.mem_map] at hx
+  obtain ⟨y, _, rfl⟩ := hx
+  exact mul_self_nonneg y
+
+/-- **a normalised non-zero row is a unit vector** (n-D sphere points of IFORM/ISORM for n_dim ≥ 3:
+NSphere normalises the initial Gaussian points and every relaxation step) -/
+theorem normalize_unit (v : List ℝ) (hv : normSq v ≠ 0) : normSq (normalizeRow v) = 1 := by
+  have hpos : 0 < normSq v := lt_of_le_of_ne (normSq_nonneg v) (Ne.symm hv)
+  have hs : Real.sqrt (normSq v) ≠ 0 := (Real.sqrt_pos.mpr hpos).ne'
+  have key : ∀ w : List ℝ, ∀ c : ℝ, c ≠ 0 → normSq (w.map fun x => x / c) = normSq w / (c * c) := by
+    intro w c hc
+    induction w with
+    | nil => simp [normSq]
+    | cons a as ih =>
+      simp only [normSq, List.map_cons, List.sum_cons] at ih ⊢
+      rw [ih]; field_simp
+  unfold normalizeRow
+  rw [key v _ hs, Real.mul_self_sqrt hpos.le, div_self hv]
+
+/-- best-state selection of `_relax_points`: keep the first state, replace it whenever a later
+state has strictly lower potential energy -/
+def bestState {σ : Type} (pot : σ → ℝ) [DecidableRel (fun a b : ℝ => a < b)] (init : σ) (later : List σ) : σ :=
+  later.foldl (fun best s => if pot s < pot best then s else best) init
+
+/-- **the state NSphere returns is one of the states it visited** — each of which has normalised
+rows — so the returned points are unit vectors whatever the relaxation did. -/
+theorem bestState_mem {σ : Type} (pot : σ → ℝ) [DecidableRel (fun a b : ℝ => a < b)] (init : σ) (later : List σ) :
+    bestState pot init later = init ∨ bestState pot init later ∈ later := by
+  unfold bestState
+  induction later generalizing init with
+  | nil => left; rfl
+  | cons s rest ih =>
+    simp only [List.foldl_cons]
+    rcases ih (if pot s < pot init then s else init) with h | h
+    · by_cases hs : pot s < pot init
+      · simp only [hs, if_true] at h ⊢; right; rw [h]; simp
+      · simp only [hs, if_false] at h ⊢; left; exact h
+    · right; exact List.mem_cons_of_mem _ h
+
+theorem bestState_unit {σ : Type} (pot : σ → ℝ) [DecidableRel (fun a b : ℝ => a < b)] (Unit : σ → Prop)
+    (init : σ) (later : List σ) (h0 : Unit init) (hl : ∀ s ∈ later, Unit s) : Unit (bestState pot init later) := by
+  rcases bestState_mem pot init later with h | h
+  · rw [h]; exact h0
+  · exact hl _ h
+
 
 /-! ### non-vacuity: a 3-D hierarchy with exact leaves over `Int`-free rationals is exercised by
 the correspondence harness; here the hypotheses are shown satisfiable on a tiny instance. -/
